@@ -22,6 +22,17 @@ BASE = [0, 1, 7, 10, 255, 256, 4095, 65536, 10 ** 6, 10 ** 15, 10 ** 16, 2 ** 64
         0.0, 1.0, 0.5, 1.5, 100.0, 1000.0, 120000.0, 1e16, 1e17, 1.5e16, 18014398509481984.0, 1e22, 1e23, 1e-5, 1.5e-7, 1e100, 1e-100,
         1.7976931348623157e308, 5e-324, 0.1, 2.5e-10, 123456789.125, float('inf'), 1j, 0j, 1.5j, 1e100j, complex(0, float('inf')),
         '', 'a', "it's", '"', '\\', '\n', '\x00', '\u20ac', '\U0001f600', '\ud800', b'', b'a', b"'", b'\\', b'\xff\x00', 'a' * 300]
+# 17-significant-digit and short mantissas in every decade (systematic, not tuned to any known failure)
+for _k in list(range(-30, 31)) + [-300, -100, 100, 300]:
+    for _m in ('1', '1.5', '1.25', '9.999999999999999', '1.2345678901234567', '1.8014398509481984', '5.000000000000001'):
+        BASE.append(float('%se%d' % (_m, _k)))
+# sources that are parsed (not built), for shapes CPython's own unparser cannot vouch for
+SOURCES = ['x=0x' + 'f' * 5000, 'x=' + '9' * 4300, "f'{not b\'b\'}'", "f'{x in b\'b\'!r:>{w}}'", "f'{x!r:{y}}{{}}'", 'x=1if y else 2', 'x=0x1for y in z',
+           'x=1 .real', 'x=1..real', 'x=1.0.real', 'x=1j.imag', 'x=-1**-1', 'x=(-1)**(-1)', 'x=not-1', 'x=a--b', 'x=a<-b', 'x=a if b else-c',
+           'print(*a,**b)', 'x=[*a,*b]', 'x={**a,**b}', 'lambda*a,**k:0', 'x=...', 'x=a[...]', 'x=a[1:2,...]', 'with ((a,b)):pass',
+           'async def f():\n async with a as b,c:pass\n await (yield)', 'x=1_000', 'x=0o17', 'x=0b11', 'x=1e5', 'x=1E-5', 'x=.5', 'x=5.',
+           'x=r"\\d"', 'x=b"\\x00"', 'x="\\N{BULLET}"', "x='''a\nb'''", 'x=u"a"', 'x=rb"a"']
+
 CONTEXTS = ['x=%s', 'x=-%s', 'x=a if %s else b', 'x=a in %s', 'print(%s)', 'x=%s if a else b', 'x=a is %s', 'x=[%s for y in %s]', 'x=%s.real',
             'x=lambda:%s', 'x=not %s', 'x=%s or %s', 'x=%s**%s', 'x=%s[%s]', 'x={%s:%s}', 'match y:\n case %s:pass',
             'def f():\n return %s', 'async def f():\n await %s', 'x=a<%s']
@@ -81,6 +92,16 @@ def main(argv):
             r = astlib.roundtrip(m)
             if r:
                 fails.append({'input': '%r in %r' % (v, c), 'failure': r})
+    if not sweep:
+        for src in SOURCES:
+            try:
+                m = ast.parse(src)
+            except (SyntaxError, ValueError):
+                continue
+            cases += 1
+            r = astlib.roundtrip(m)
+            if r:
+                fails.append({'input': 'source %r' % (src[:80],), 'failure': r[:300]})
     print(json.dumps({'cases': cases, 'failures': fails[:50], 'n_failures': len(fails)}))
 
 
